@@ -827,6 +827,9 @@ def scalar(value, *, variance=None, unit=_DEFAULT, dtype=None):
     if isinstance(value, (SymReal, SymInt)):
         val = z3.ToReal(value.t) if isinstance(value, SymInt) else value.t
         dt = norm_dtype(dtype) if dtype is not None else (I64 if isinstance(value, SymInt) else F64)
+        if dt in INTS and isinstance(value, SymReal):
+            from .pysym import sym_trunc
+            val = z3.ToReal(sym_trunc(value).t)     # truncated towards zero, as scipp does
     elif isinstance(value, bool):
         return Var(Buf(z3.BoolVal(value), None if unit is _DEFAULT else _default_unit(unit), BOOL))
     elif isinstance(value, (int, float, Fr)) or type(value).__module__ == 'numpy':
@@ -840,6 +843,8 @@ def scalar(value, *, variance=None, unit=_DEFAULT, dtype=None):
             return v
         else:
             val = tz(value if isinstance(value, (int, Fr)) else float(value))
+            if dt in INTS and not isinstance(value, int) and float(value) != int(float(value)):
+                val = tz(int(float(value)))      # scipp stores a float given with an integer dtype truncated towards zero
     elif isinstance(value, str):
         raise Unsupported('string scalar')
     else:
@@ -1054,6 +1059,18 @@ def reciprocal(x, *, out=None):
         return x ** -1
     _need_float(x, 'reciprocal')
     return _out(scalar(1.0, dtype=x.dtype)._div(x), out)
+
+
+def isclose(x, y, *, rtol=None, atol=None, equal_nan=False):
+    """scipp.isclose as documented: abs(x - y) <= atol + rtol * abs(y), rtol defaults to 1e-5, atol to 1e-8 in the unit of y"""
+    if getattr(x, 'variances', None) is not None or getattr(y, 'variances', None) is not None:
+        raise Unsupported('isclose of variables with variances')
+    _need_float(x, 'isclose')
+    rt = scalar(1e-5) if rtol is None else rtol
+    at = scalar(1e-8, unit=y.unit) if atol is None else atol
+    if rt.unit != Unit.parse('dimensionless') if hasattr(Unit, 'parse') else False:
+        raise UnitError('rtol must be dimensionless')
+    return abs(x - y) <= at + rt * abs(y)
 
 
 def abs_(x, *, out=None):
@@ -1387,7 +1404,7 @@ def build_modules():
         scalar=scalar, vector=vector, index=index, to_unit=to_unit, sqrt=sqrt, reciprocal=reciprocal,
         sin=sin, cos=cos, atan2=atan2, asin=asin, acos=acos, exp=exp, log=log, norm=norm, dot=dot, cross=cross,
         values=values, variances=variances, array=array, full=full, concat=_dispatch('concat'), cumsum=_dispatch('cumsum'),
-        issorted=_dispatch('issorted'), mean=_dispatch('mean'), arange=arange, round=round_, vectors=vectors, where=where, any=any_, all=all_, max=max_, min=min_, abs=abs_, isnan=isnan, identical=identical,
+        issorted=_dispatch('issorted'), mean=_dispatch('mean'), arange=arange, round=round_, vectors=vectors, where=where, any=any_, all=all_, max=max_, min=min_, abs=abs_, isnan=isnan, identical=identical, isclose=isclose,
     ).items():
         setattr(sc, k, v)
     return {'scipp': sc, 'scipp.units': units, 'scipp.constants': const, 'scipp.typing': typing_,
